@@ -420,3 +420,171 @@ func VerifCore_SkipRound() {
 	sym.Assert(e.stepErr == nil, "KNOWN:c07-no-values-at-converge:R4: the CONVERGE timeout after a skip never yields an internal error")
 	sym.Assert(!e.h.alarm.IsZero() && !e.h.alarm.Before(e.h.now), "KNOWN:c07-no-values-at-converge:T1: the participant still has a pending alarm")
 }
+
+// VerifCore_LateRoundEntry: the participant is still in round 0 (QUALITY or
+// PREPARE) while its peers have finished round 0; it is pulled into round 1 by
+// a weak quorum of PREPAREs plus a CONVERGE whose value (its input or a fork)
+// is justified either by a PREPARE quorum of round 0 (it sways) or by the
+// COMMIT-bottom quorum.  Then any subset of the peers' late round-0 COMMITs
+// for bottom arrives, optionally a second CONVERGE for another value with
+// either justification, and the CONVERGE timeout fires.  R4/T1: no internal
+// error and an alarm stays pending; R8 (monitor): the round-1 PREPARE is for a
+// prefix of the input or a value with proof of a strong quorum; the adopted
+// value is one that was received (or the own proposal).
+func VerifCore_LateRoundEntry() {
+	input := VerifX(2)
+	e := newVerifEnv(input, false)
+	e.start()
+	if !sym.Bool("skip-from-quality") {
+		e.echo(0)
+		e.deliver(e.message(0, 0, QUALITY_PHASE, input, 0, 0))
+		e.deliver(e.message(1, 0, QUALITY_PHASE, input, 0, 0))
+		sym.Assume(e.phase() == PREPARE_PHASE)
+	}
+	// signatures that exist among the peers: round 0 ended with COMMIT bottom;
+	// PREPAREs of round 0 for the value they converge on
+	v, _ := verifPick("their-proposal", 2, 4)
+	sym.Assume(v != nil)
+	for _, idx := range []int{0, 1, verifByzIdx} {
+		e.castVote(idx, 0, COMMIT_PHASE, &ECChain{})
+		e.castVote(idx, 0, PREPARE_PHASE, v)
+	}
+	jk := 1 + sym.Choice("converge-justified-by-commit-bottom", 2)
+	if m := e.message(0, 1, CONVERGE_PHASE, v, jk, 0); m != nil {
+		e.deliver(m)
+	}
+	for _, idx := range []int{0, 1} {
+		if m := e.message(idx, 1, PREPARE_PHASE, v, jk, 0); m != nil {
+			e.deliver(m)
+		}
+	}
+	if e.p.Progress().Round != 1 {
+		sym.Cover("did-not-skip")
+		return
+	}
+	sym.Cover("skipped-to-round-1")
+	if jk == 1 {
+		sym.Cover("swayed")
+	}
+	sym.Assert(e.phase() == CONVERGE_PHASE, "skip lands in CONVERGE of the new round")
+	// late COMMITs of round 0
+	for _, idx := range []int{0, 1, verifByzIdx} {
+		if e.phase() == CONVERGE_PHASE && sym.Bool("late-commit-bottom") {
+			if m := e.message(idx, 0, COMMIT_PHASE, &ECChain{}, 0, 0); m != nil {
+				e.deliver(m)
+			}
+		}
+	}
+	// a second CONVERGE, from the Byzantine member or peer 1, for any value
+	received := []*ECChain{v}
+	if w, _ := verifPick("second-converge", 2, 4, 1); w != nil {
+		jk2 := 2
+		if w.Eq(v) && sym.Bool("second-justified-by-prepare") {
+			jk2 = 1
+		}
+		sender := verifByzIdx
+		if sym.Bool("second-converge-from-peer-1") {
+			sender = 1
+		}
+		if m := e.message(sender, 1, CONVERGE_PHASE, w, jk2, 0); m != nil && e.deliver(m) {
+			received = append(received, w)
+		}
+	}
+	sym.Assume(e.phase() == CONVERGE_PHASE)
+	e.fireAlarm(0)
+	sym.Assert(e.stepErr == nil, "R4: the CONVERGE timeout after a late round entry never yields an internal error")
+	sym.Assert(!e.h.alarm.IsZero() && !e.h.alarm.Before(e.h.now), "T1: the participant still has a pending alarm")
+	sym.Assert(e.phase() == PREPARE_PHASE && e.p.Progress().Round == 1, "T2: CONVERGE ends at its timeout")
+	mb := e.lastBroadcast()
+	if mb.Payload.Phase == PREPARE_PHASE {
+		ok := false
+		for _, w := range received {
+			ok = ok || mb.Payload.Value.Eq(w)
+		}
+		sym.Assert(ok || e.input.HasPrefix(mb.Payload.Value), "R6: the adopted value is a received CONVERGE value or a prefix of the own input")
+	}
+}
+
+// VerifCore_QueuedStart: messages that arrive before the instance starts are
+// queued; when the instance starts they are delivered in (round, phase)
+// order, late-binding validation failures (foreign base) are dropped, and the
+// participant ends up exactly where a participant that received the same
+// messages directly after starting ends up (T4).
+func VerifCore_QueuedStart() {
+	input := VerifX(2)
+	e := newVerifEnv(input, false)
+	d := newVerifEnv(input, false)
+	sym.Assert(e.p.StartInstanceAt(verifInstance, e.h.now) == nil, "R4: StartInstanceAt succeeds")
+	e.lastProgress = e.p.Progress()
+	foreign := VerifX(5)
+	far := [2]int{sym.Choice("peer0-got-to", 5), sym.Choice("peer1-got-to", 5)}
+	byz := sym.Choice("byzantine-sends", 6)
+	var msgs []*GMessage
+	add := func(m *GMessage) {
+		if m != nil {
+			msgs = append(msgs, m)
+		}
+	}
+	for ph := 1; ph <= 4; ph++ {
+		for k, idx := range []int{0, 1} {
+			if far[k] < ph {
+				continue
+			}
+			switch ph {
+			case 1:
+				add(e.message(idx, 0, QUALITY_PHASE, input, 0, 0))
+			case 2:
+				add(e.message(idx, 0, PREPARE_PHASE, input, 0, 0))
+			case 3:
+				add(e.message(idx, 0, COMMIT_PHASE, input, 3, 0))
+			default:
+				add(e.message(idx, 0, DECIDE_PHASE, input, 4, 0))
+			}
+		}
+		// Byzantine member: 0 silent, 1 foreign-base QUALITY only, 2 foreign-base PREPARE only,
+		// 3 follows the protocol, 4 foreign QUALITY then follows, 5 QUALITY, foreign PREPARE, then follows
+		switch {
+		case byz == 0:
+		case ph == 1 && (byz == 1 || byz == 4):
+			add(e.message(verifByzIdx, 0, QUALITY_PHASE, foreign, 0, 0))
+		case ph == 1 && (byz == 3 || byz == 5):
+			add(e.message(verifByzIdx, 0, QUALITY_PHASE, input, 0, 0))
+		case ph == 2 && (byz == 2 || byz == 5):
+			add(e.message(verifByzIdx, 0, PREPARE_PHASE, foreign, 0, 0))
+		case ph == 2 && (byz == 3 || byz == 4):
+			add(e.message(verifByzIdx, 0, PREPARE_PHASE, input, 0, 0))
+		case ph == 3 && byz >= 3:
+			add(e.message(verifByzIdx, 0, COMMIT_PHASE, input, 3, 0))
+		case ph == 4 && byz >= 3:
+			add(e.message(verifByzIdx, 0, DECIDE_PHASE, input, 4, 0))
+		}
+	}
+	queued := 0
+	for _, m := range msgs {
+		if e.deliver(m) {
+			queued++
+		}
+	}
+	sym.Assert(queued == len(msgs), "valid messages for the instance about to start are accepted (queued)")
+	sym.Assert(len(e.h.broadcasts) == 0, "nothing is emitted before the instance starts")
+	e.alarmNow() // the instance starts: queued messages are delivered
+	sym.Cover("started-with-queue")
+	// twin: same messages delivered directly after the start, in (round, phase) order
+	d.start()
+	for _, m := range msgs {
+		d.deliver(m)
+	}
+	if len(d.h.decisions) == 1 {
+		sym.Cover("twin-decided")
+	}
+	if byz == 1 || byz == 2 || byz == 4 || byz == 5 {
+		sym.Cover("late-binding-failure-queued")
+	}
+	sym.Assert(len(e.h.decisions) == len(d.h.decisions), "T4: queued delivery decides exactly when direct delivery does")
+	if len(e.h.decisions) == 1 && len(d.h.decisions) == 1 {
+		sym.Assert(e.h.decisions[0].Vote.Value.Eq(d.h.decisions[0].Vote.Value), "T4: and decides the same value")
+	}
+	pe, pd := e.p.Progress(), d.p.Progress()
+	sym.Assert(pe.ID == pd.ID && pe.Round == pd.Round && pe.Phase == pd.Phase, "T4: queued delivery reaches the same progress as direct delivery")
+	sym.Assert(len(e.h.broadcasts) == len(d.h.broadcasts), "T4: and emits the same number of messages")
+}
